@@ -71,7 +71,7 @@ def env_chain(ctx, body, bb):
 def chains(ck, ctx):
     F = ctx.F
     sites = []
-    for b in F.all_bodies():
+    for b in F.view_bodies():
         for bb, t in b.calls():
             if callee_of(t).endswith("EvalString::evaluate"):
                 sites.append((b, bb, t))
@@ -173,6 +173,15 @@ def eager(ck, ctx):
         recv = strip(R.arg(bb, 0))
         okr = field_chain(recv)[1] == ["vars"]
         ck.ob("eager", "insert-evaluated-value", okv and okk and okr, "Parser::read inserts (ident, evaluate(read_vardef(), [&self.vars])) into self.vars: the value is expanded when defined", span=t["loc"], fn=b.nname)
+    # every binding is recorded, whatever its value (re-binding to the empty string must replace the old text)
+    for bb, t in Q.sites_in(b, "parse::Parser::read_vardef"):
+        ok = C.must_pass(ctx, b, bb, [x for x, _ in ins])
+        ck.ob("eager", "every-binding-recorded", ok is True, "after a successfully parsed `name = value` the next statement is reached only through vars.insert(name, value): no value is special-cased", span=t["loc"], fn=b.nname)
+    sv = ck.need("fn parse::Parser::read_scoped_vars", F.body("parse::Parser::read_scoped_vars"))
+    sins = [(bb, t) for bb, t in sv.calls() if callee_of(t).endswith("SmallMap::insert")]
+    for bb, t in Q.sites_in(sv, "parse::Parser::read_vardef"):
+        ok = C.must_pass(ctx, sv, bb, [x for x, _ in sins])
+        ck.ob("eager", "every-scoped-binding-recorded", ok is True and bool(sins), "after a successfully parsed indented `name = value` the next line is reached only through the block's insert", span=t["loc"], fn=sv.nname)
     C.single_writer(ck, ctx, "eager", "parse::Parser", "vars", ["parse::Parser::read", "parse::Parser::inherit"])
     C.single_writer(ck, ctx, "eager", VARS, "0", ["eval::Vars::insert"])
     # Vars::get_var yields a literal (no re-expansion of stored text)
